@@ -345,7 +345,8 @@ func (m *Mast) flush(ctx context.Context) (string, error) {
 		return nil, fmt.Errorf("unknown node format '%v'", m.nodeFormat)
 	}
 
-	str, err := node.store(ctx, m.persist, m.nodeCache, versionedMarshaler, storeQ)
+	var commit []func()
+	str, err := node.store(ctx, m.persist, m.nodeCache, versionedMarshaler, storeQ, &commit)
 	close(storeQ)
 	wg.Wait()
 	if err != nil {
@@ -353,6 +354,9 @@ func (m *Mast) flush(ctx context.Context) (string, error) {
 	}
 	if firstStoreError != nil {
 		return "", firstStoreError
+	}
+	for _, f := range commit {
+		f()
 	}
 	m.root = str
 	return str, nil
